@@ -560,3 +560,60 @@ def h_quic_traffic_installed(c, suite, klen, alg, aead):
         c.ensure("positions." + names[0], len(keys) == len(names) and all(keys[i] is ks[n] for i, n in enumerate(names)) and early is want_early
                  and c.is_external(cipher, AEAD + aead))
     c.ensure("application_generation_0", isinstance(decs["Application"], list) and len(decs["Application"]) == 1)
+
+
+SUITE_PARAMS = {b"\x13\x01": (16, "SHA256", "AESGCM"), b"\x13\x02": (32, "SHA384", "AESGCM"), b"\x13\x03": (32, "SHA256", "ChaCha20Poly1305"), b"\x13\x04": (16, "SHA256", "AESCCM")}
+
+
+@harness(["C15", "C14", "C02"], "keys.quic_installed_twice", functions=[QS + ".set_tls_decryptors"],
+         cases=[(a, b) for a in SUITE_PARAMS for b in SUITE_PARAMS if a != b])
+def h_quic_installed_twice(c, first, second):
+    """a HISTORY of two installations on one connection: TLExport installs keys provisionally for the suite the client offers first
+    (for 0-RTT) and again for the suite the server selects.  After the second installation EVERYTHING installed - hash, AEAD and key
+    length of the session, the header-protection keys, the Handshake decryptor and generation 0 of the 1-RTT decryptors - is derived
+    with the SELECTED suite's parameters from a fresh derivation: nothing of the provisional installation survives"""
+    if c.native:
+        return
+    from contracts.common import QS as _QS
+    cr = c.bytes("client_random", length=32)
+    mine, vm = key_obj(c, "CLIENT_TRAFFIC_SECRET_0", "mine", 32)
+    c.assume(eq(spelled(c, c.get(mine, "client_random")), cr))
+    got, results = [], []
+    NAMES = ("server_handshake_key", "server_handshake_iv", "client_handshake_key", "client_handshake_iv", "server_handshake_hp", "client_handshake_hp",
+             "server_application_key", "server_application_iv", "client_application_key", "client_application_iv", "server_application_sec",
+             "client_application_sec", "server_application_hp", "client_application_hp", "client_early_key", "client_early_iv", "client_early_hp")
+
+    def s_dev(ctx, key_length, secret_list, hash_fun, version):
+        got.append((key_length, list(secret_list), hash_fun))
+        r = {k: ctx.bytes_fresh("%s_%d" % (k, len(got)), 12, 48) for k in NAMES}
+        results.append(r)
+        return r
+    c.summary_override(QK + ".dev_quic_keys", s_dev)
+    made = []
+    c.summary_override(QD + ".__init__", lambda ctx, cls, keys, cipher, early=False: made.append((keys, cipher, early)) or ctx.make_obj(cls, keys=keys))
+    v1 = c.enum("tlexport.quic.quic_decode.QuicVersion", "V1")
+    s = c.obj(QS, keylog=[mine], quic_version=v1, keys={}, decryptors={"Initial": c.opaque("initial")}, can_decrypt=True, hash_fun=None, cipher=None, key_length=None,
+              early_traffic_keys=False)
+    for suite in (first, second):
+        out = c.method(s, "set_tls_decryptors", cr, const(suite))
+        c.ensure("no_raise", out.exc is None, kind="raises")
+        if out.exc is not None:
+            return
+    klen, alg, aead = SUITE_PARAMS[second]
+    c.ensure("second_installation.derives_again_with_the_selected_suites_parameters", len(got) == 2 and got[1][0] == klen and c.hash_is(got[1][2], alg))
+    if len(got) != 2:
+        return
+    r2 = results[1]
+    c.ensure("second_installation.session_parameters", c.get(s, "key_length") == klen and c.is_external(c.get(s, "cipher"), AEAD + aead))
+    ks, decs = c.get(s, "keys"), c.get(s, "decryptors")
+    c.ensure("second_installation.header_protection_keys_are_the_new_ones", all(ks.get(n) is r2[n] for n in NAMES if n.endswith("_hp")))
+    hs, app = decs.get("Handshake"), decs.get("Application")
+    c.ensure("second_installation.handshake_decryptor_built_from_the_new_keys", hs is not None and c.get(hs, "keys")[0] is r2["server_handshake_key"]
+             and c.get(hs, "keys")[2] is r2["client_handshake_key"])
+    c.ensure("second_installation.1rtt_generation_0_built_from_the_new_keys", isinstance(app, list) and len(app) == 1 and c.get(app[0], "keys")[0] is r2["server_application_key"]
+             and c.get(app[0], "keys")[2] is r2["client_application_key"] and c.get(app[0], "keys")[4] is r2["server_application_sec"])
+    c.ensure("initial_keys_untouched", decs.get("Initial") is not None)
+    c.cover("installed_twice")
+
+
+h_quic_installed_twice.must_cover = ["installed_twice"]
